@@ -809,6 +809,41 @@ impl<'a> Ovl<'a> {
                 }
                 Ok(Self::kind_of(&e.attr))
             }
+            "mkdiru" => {
+                // mkdiru <path> <modehex> <umaskhex>
+                let (p, n) = Self::split(w[1]);
+                let pi = self.walk(p)?;
+                let e = self.fs.mkdir(c, pi, &cstr(n), u32::from_str_radix(w[2], 16).unwrap(), u32::from_str_radix(w[3], 16).unwrap())?;
+                self.got(e.inode);
+                Ok(Self::kind_of(&e.attr))
+            }
+            "mknodx" => {
+                // mknodx <path> <type-and-mode hex> <rdev> <umaskhex>
+                let (p, n) = Self::split(w[1]);
+                let pi = self.walk(p)?;
+                let e = self.fs.mknod(c, pi, &cstr(n), u32::from_str_radix(w[2], 16).unwrap(), w[3].parse().unwrap(), u32::from_str_radix(w[4], 16).unwrap())?;
+                self.got(e.inode);
+                Ok(Self::kind_of(&e.attr))
+            }
+            "setxattrf" => {
+                let i = self.walk(w[1])?;
+                self.fs.setxattr(c, i, &cstr(w[2]), &unhex(w[3]), w[4].parse().unwrap())?;
+                Ok(String::new())
+            }
+            "getxattr0" => {
+                let i = self.walk(w[1])?;
+                match self.fs.getxattr(c, i, &cstr(w[2]), 0)? {
+                    GetxattrReply::Value(v) => Ok(hex(&v)),
+                    GetxattrReply::Count(n) => Ok(format!("count{}", n)),
+                }
+            }
+            "listxattr0" => {
+                let i = self.walk(w[1])?;
+                match self.fs.listxattr(c, i, 0)? {
+                    ListxattrReply::Names(b) => Ok(hex(&b)),
+                    ListxattrReply::Count(n) => Ok(format!("count{}", n)),
+                }
+            }
             "lookupname" => {
                 // lookup of a raw name (".", "..", "", "a/b") under a directory
                 let i = self.walk(w[1])?;
